@@ -476,6 +476,12 @@ func (db *DB) getActiveFileWriteOff() (off int64, err error) {
 				break
 			}
 
+			// a record that fails its checksum at the tail of the active file is a write that was
+			// cut short by a crash: the log ends here
+			if err == ErrCrc {
+				break
+			}
+
 			return -1, fmt.Errorf("when build activeDataIndex readAt err: %s", err)
 		}
 	}
@@ -546,6 +552,11 @@ func (db *DB) parseDataFiles(dataFileIds []int) (unconfirmedRecords []*Record, c
 				}
 
 				if off >= db.opt.SegmentSize {
+					break
+				}
+
+				// torn write at the tail of the newest file (see getActiveFileWriteOff)
+				if err == ErrCrc && dataID == dataFileIds[len(dataFileIds)-1] {
 					break
 				}
 				f.rwManager.Close()
